@@ -36,25 +36,28 @@ import (
 
 func init() {
 	domains["remote"] = domain{runRemote,
-		"a case is a sequence (≤5 quick, ≤8 thorough) of invocations of the task binary on a remote Taskfile served by a " +
-			"loopback server the harness owns: per step the server serves version k / refuses (listener closed) / resets / " +
-			"404 / 500 / HEAD-ok-GET-500 / foreign content type / stalls past --timeout 300ms (on HEAD or on GET), the flags " +
-			"--yes --download --offline --expiry 0|1h --insecure --timeout 300ms|10s --clear-cache vary, the cache is aged by 2h, " +
-			"the prompt is answered y/yes/n/… through a pty or there is no terminal, root entrypoint or include, two http URLs " +
-			"on different paths, one https URL, and three http URLs that differ from the first only in the query (?v=2), in the letter " +
-			"case of the path, in a doubled slash (each served its own content; successive steps of a sequence share the cache directory, " +
-			"so a cache entry shared by two URLs shows as foreign content, a false 'has changed' prompt or a missing entry), experiment on/off; observed: exit code, which version's marker ran, cache files (content version, " +
-			"stored checksum, timestamp present) of every URL — compared with Remote.invoke over the same sequence; plus the " +
-			"property monitor (a marker ran ⇒ that version was offered under --yes or an accepted prompt at or before the step). " +
-			"Second stream (op remote.chain, 250 quick / 3000 thorough sequences): CHAINS — per sequence A and B are the two paths, or (37%) " +
-			"two URLs of one path that differ only in the query; A's served content (number v+10k) includes B by a relative (k=1,2,5) or " +
-			"absolute (k=3,4,6) http reference, " +
-			"rarely itself (cycle, 110) or nothing; A's probe task calls B's; per step the server behaves independently for A and for B " +
-			"(serve version / reset / 404 / 500 / GET-500 / foreign content type / stall on HEAD or GET; refuse = listener closed for both), " +
-			"both are read under the ONE --timeout 300ms|10s of the invocation (A stalling uses it up before B's read starts), flags as " +
-			"above, prompts answered per URL through the pty (A's and B's answers vary independently), root or include-of-local-root; " +
-			"most sequences first download and approve both; at most 150 (quick) steps with a stall past the timeout; compared with " +
-			"Chain.invokeChain (exit code, markers of A and of B that ran, cache files of every URL) plus the same trust monitor for both. " +
+		"a case is a sequence (≤5 quick, ≤8 thorough) of invocations of the task binary on a remote Taskfile served by loopback " +
+			"servers the harness owns (plain http, TLS with a generated certificate handed over as SSL_CERT_FILE, and a listener that " +
+			"accepts and never answers): per step the server serves version k / refuses (listeners closed) / resets / 404 / 500 / " +
+			"HEAD-ok-GET-500 / foreign content type / stalls past --timeout 300ms (on HEAD or on GET) / (TLS URL) redirects to plain http " +
+			"or to https; the flags --yes --download --offline --expiry 0|1h --insecure --timeout 300ms|10s --clear-cache vary, the cache " +
+			"is aged by 2h, the prompt is answered y/yes/n/… through a pty or there is no terminal, root entrypoint or include; URLs: two " +
+			"http paths, https on the plain port (always fails), three http URLs that differ from the first only in the query / letter " +
+			"case / a doubled slash, https on the TLS port, a DIRECTORY-style URL /dd (HEAD 404 or octet-stream, the Taskfile under one " +
+			"of three default names), its sibling /dd/inc.yml and /inc.yml (what './inc.yml' means from /dd/<name> and from /dd); before a " +
+			"step the cache may be DAMAGED (the .yaml swapped for another version / truncated / removed) or TORN (the .checksum, " +
+			".timestamp, .location of a killed approving invocation written without the .yaml); observed: exit code, which versions' " +
+			"markers ran (trace file), cache files (content version, stored checksum, timestamp present, stored location) of every URL — " +
+			"compared with Remote.invoke over the same sequence; plus the property monitor (a marker ran ⇒ that version was offered " +
+			"under --yes or an accepted prompt at or before the step). Second stream (op remote.chain, 250 quick / 3000 thorough " +
+			"sequences): CHAINS — A and B are two paths, two URLs of one path that differ only in the query, or (35%) the directory URL " +
+			"/dd and /dd/inc.yml; A's content (number v+10k) includes B by a relative or an absolute reference ('./inc.yml' for /dd), rarely " +
+			"itself (110) or nothing; A's probe calls B's; the server behaves independently for A and B, both are read under the ONE " +
+			"--timeout, prompts answered per URL through the pty, A read online, --offline, with the server down, with a valid cache, " +
+			"with damaged entries. Third stream (op remote.tree, 120 / 1500): TREES — A includes B and C (siblings: two goroutines, " +
+			"promptMutex) or A includes B includes C (chain of three); three independent servers and answers; when several nodes fail " +
+			"the exit status the binary reported is handed to the model as the environment's choice. Fourth (10 / 60): a GIT node whose " +
+			"server never answers, under --timeout 300ms: must end (108 / 105 / 106), a hang is a verdict. " +
 			"non-trivial = a step gets past the flag/scheme gate; distinct by model case line"}
 }
 
